@@ -3,7 +3,7 @@
 cd /verif
 for d in seeded/*/; do
   id=$(basename $d); prop=${id%_*}
-  git -C /repo apply $d/patch.diff 2>/dev/null || { echo "$id APPLY-FAILED"; continue; }
+  git -C /repo apply /verif/$d/patch.diff 2>/dev/null || { echo "$id APPLY-FAILED"; continue; }
   out=$(timeout 1200 python3-vt bin/check $prop 2>&1); code=$?
   git -C /repo checkout -- . 
   v=$(echo "$out" | grep -c '^VIOLATION'); nf=$(echo "$out" | grep '^VIOLATION' | grep -c 'no-failing-input-found'); first=$(echo "$out" | grep '^VIOLATION' | head -1 | sed 's/.*replay=[^ ]*\/\([^/ ]*\)\.json.*/\1/' | cut -c1-90)
